@@ -17,6 +17,7 @@ import (
 	atomic_file "github.com/natefinch/atomic"
 
 	"github.com/liftbridge-io/liftbridge/server/logger"
+	"github.com/liftbridge-io/liftbridge/server/verifhook"
 )
 
 const (
@@ -273,6 +274,15 @@ func (l *leaderEpochCache) flush() error {
 		if _, err := b.WriteString(fmt.Sprintf("%d %d\n", epoch.leaderEpoch, epoch.startOffset)); err != nil {
 			return err
 		}
+	}
+	if verifhook.Enabled {
+		if err := verifhook.Point("epoch.beforeFlush"); err != nil {
+			return err
+		}
+		if err := atomic_file.WriteFile(l.checkpointFile, b); err != nil {
+			return err
+		}
+		return verifhook.Point("epoch.afterFlush")
 	}
 	return atomic_file.WriteFile(l.checkpointFile, b)
 }
